@@ -716,6 +716,26 @@ func c04CyclicLayer() c04Layer {
 			cs = append(cs, c04Case{Body: append(append([]string{}, b...), strings.Split(u, "\n")...), Group: "self-containing-value/" + c04CyclicUse(u)})
 		}
 	}
+	// a self-containing value handed to a provider operation (and coming back in its result): every mock provider
+	// the CLI injects, the operations that store or echo their argument
+	provUses := []struct{ inj, use, tag string }{
+		{"% db: Database", "> db.users.create(o)", "db.create"},
+		{"% db: Database", "$ r = db.users.create(o)\n> db.users.all()", "db.create+all"},
+		{"% db: Database", "$ r = db.users.create({id: 1})\n> db.users.update(1, o)", "db.update"},
+		{"% db: Database", "$ r = db.users.create(o)\n> db.users.filter(\"a\", o)", "db.filter"},
+		{"% db: Database", "$ r = db.users.create(o)\n> db.users.get(1)", "db.get"},
+		{"% db: Database", "> db.users.count(\"a\", o)", "db.count"},
+		{"% cache: Redis", "> cache.set(\"k\", o)", "redis.set"},
+		{"% cache: Redis", "> cache.hset(\"h\", \"f\", o)", "redis.hset"},
+		{"% cache: Redis", "> cache.lpush(\"l\", o)", "redis.lpush"},
+		{"% mongo: MongoDB", "> mongo.collection(\"c\").insertOne(o)", "mongo.insertOne"},
+		{"% mongo: MongoDB", "> mongo.collection(\"c\").find(o)", "mongo.find"},
+	}
+	for _, b := range builders[:2] {
+		for _, pu := range provUses {
+			cs = append(cs, c04Case{Inj: []string{pu.inj}, Body: append(append([]string{}, b...), strings.Split(pu.use, "\n")...), Group: "self-containing-value/" + pu.tag})
+		}
+	}
 	return c04ListLayer("cyclic", cs)
 }
 
